@@ -120,6 +120,29 @@ func quotaOf(d map[string]interface{}) int64 {
 	return 0
 }
 
+// scripted delays can be cut short: the last C step of a scenario wakes every answer still held back
+var (
+	wakeMu sync.Mutex
+	wakeCh = make(chan struct{})
+)
+
+func scriptedSleep(d time.Duration) {
+	wakeMu.Lock()
+	ch := wakeCh
+	wakeMu.Unlock()
+	select {
+	case <-time.After(d):
+	case <-ch:
+	}
+}
+
+func wakeScriptedSleepers() {
+	wakeMu.Lock()
+	close(wakeCh)
+	wakeCh = make(chan struct{})
+	wakeMu.Unlock()
+}
+
 func peerGetOne(coll string, filter bson.M) (map[string]interface{}, error) {
 	k, ok := keyOf(filter)
 	if ok {
@@ -148,7 +171,7 @@ func peerGetOne(coll string, filter bson.M) (map[string]interface{}, error) {
 			}
 			sc.mu.Unlock()
 			if delay > 0 {
-				time.Sleep(time.Duration(delay) * time.Millisecond)
+				scriptedSleep(time.Duration(delay) * time.Millisecond)
 			}
 			d, err := store.getOne(coll, filter)
 			if srv == "abmf" {
@@ -387,7 +410,7 @@ func runPeer(line string, t []string) string {
 		}
 	}
 	hung := false
-	for _, s := range steps {
+	for stepIdx, s := range steps {
 		if len(s) == 0 {
 			return "bad-op"
 		}
@@ -474,6 +497,11 @@ func runPeer(line string, t []string) string {
 			}
 			out = append(out, fmt.Sprintf("n=%d:%d", arg, btoi(!hung)))
 		case 'C':
+			// the scenario is over: answers the script still holds back are let go now (their handlers, the relay tasks and the
+			// connections waiting for them belong to the script, not to the CHF)
+			if stepIdx == len(steps)-1 {
+				wakeScriptedSleepers()
+			}
 			// what is left behind stays behind: when a count is not zero the sample is repeated (up to twice, a second
 			// apart), so that a teardown still in flight on a loaded machine is not taken for a leak
 			var obs string
